@@ -7,7 +7,29 @@ import sys
 sys.path.insert(0, os.path.dirname(os.path.abspath(__file__)))
 
 
+def safe_tmpdir():
+    """typhon treats a fileset path as a regular expression / format template, and some driver protocols are
+    space-separated: a temporary directory whose name contains blanks or regex characters would break the
+    SET-UP of the checks (not the property).  In that case scratch files go to a plainly named directory."""
+    import re
+    import tempfile
+    td = tempfile.gettempdir()
+    if re.fullmatch(r"[A-Za-z0-9_./-]+", td):
+        return
+    root = os.path.dirname(os.path.dirname(os.path.dirname(os.path.abspath(__file__))))
+    for cand in ("/tmp", "/var/tmp", os.path.join(root, ".scratch")):
+        try:
+            os.makedirs(cand, exist_ok=True)
+        except OSError:
+            continue
+        if os.access(cand, os.W_OK) and re.fullmatch(r"[A-Za-z0-9_./-]+", cand):
+            os.environ["TMPDIR"] = cand
+            tempfile.tempdir = None
+            return
+
+
 def main():
+    safe_tmpdir()
     ap = argparse.ArgumentParser()
     ap.add_argument("prop")
     ap.add_argument("--tier", choices=["quick", "thorough"], default=None)
